@@ -395,6 +395,14 @@ func GenInput(r *vh.Rng, v Variant) (in []byte, kind string) {
 		in = append(append(append([]byte(nil), in[:p]...), long...), in[p:]...)
 		kind += "+longline"
 	}
+	// guard no_tail_hazard (known finding F22): the fixed-length line reader loses / keeps a final
+	// unterminated line that fills the 4096-byte buffer exactly, depending on whether io.EOF comes
+	// with the data.  The main stream stays inside the guard; the finding itself is replayed from
+	// the corpus.
+	if (v.FmtIdx == 3 || v.FmtIdx == 4) && LastLineHazard(in) {
+		in = append(in, '\n')
+		kind += "+terminated"
+	}
 	return in, size + "/" + kind
 }
 
